@@ -303,10 +303,80 @@ def confirm(replay_fn, case, times=3):
 
 
 def run_workers(fn, nworkers, args_list):
-    """fork-based parallel map; fn(arg) -> picklable."""
-    import multiprocessing as mp
+    """fork-based parallel map; fn(arg) -> picklable.  One forked child per argument (at most nworkers at a time), result pickled
+    through a pipe.  A child that dies without delivering a result is an infrastructure error (exit 2) -- never a hang, never a verdict."""
+    import pickle
+    import select
+    import traceback
     if nworkers <= 1 or len(args_list) <= 1:
         return [fn(a) for a in args_list]
-    ctx = mp.get_context("fork")
-    with ctx.Pool(min(nworkers, len(args_list))) as pool:
-        return pool.map(fn, args_list, chunksize=1)
+    results = [None] * len(args_list)
+    pending = list(enumerate(args_list))
+    running = {}          # read fd -> (index, pid, chunks)
+    failed = []
+    try:
+        while pending or running:
+            while pending and len(running) < nworkers:
+                idx, arg = pending.pop(0)
+                r, w = os.pipe()
+                sys.stdout.flush()
+                sys.stderr.flush()
+                pid = os.fork()
+                if pid == 0:
+                    code = 0
+                    try:
+                        try:
+                            import ctypes
+                            ctypes.CDLL(None).prctl(1, 9)        # PR_SET_PDEATHSIG: do not outlive the check
+                        except Exception:
+                            pass
+                        os.close(r)
+                        try:
+                            data = pickle.dumps(("ok", fn(arg)))
+                        except SystemExit as e:
+                            data = pickle.dumps(("exit", e.code))
+                        except BaseException:
+                            data = pickle.dumps(("err", traceback.format_exc()))
+                        with os.fdopen(w, "wb") as f:
+                            f.write(data)
+                    except BaseException:
+                        code = 3
+                    finally:
+                        os._exit(code)
+                os.close(w)
+                running[r] = (idx, pid, [])
+            ready, _, _ = select.select(list(running), [], [], 5.0)
+            for r in ready:
+                idx, pid, chunks = running[r]
+                b = os.read(r, 1 << 20)
+                if b:
+                    chunks.append(b)
+                    continue
+                os.close(r)
+                del running[r]
+                try:
+                    os.waitpid(pid, 0)
+                except ChildProcessError:
+                    pass
+                try:
+                    kind, val = pickle.loads(b"".join(chunks))
+                except Exception:
+                    kind, val = "dead", "worker %d ended without delivering a result" % idx
+                if kind == "ok":
+                    results[idx] = val
+                else:
+                    failed.append((idx, kind, val))
+    finally:
+        for r, (idx, pid, _) in running.items():
+            try:
+                os.kill(pid, 9)
+                os.waitpid(pid, 0)
+            except OSError:
+                pass
+    if failed:
+        idx, kind, val = failed[0]
+        if kind == "exit":
+            sys.exit(val if isinstance(val, int) else 2)
+        sys.stderr.write("INFRASTRUCTURE ERROR: worker %d failed (%s):\n%s\n" % (idx, kind, val))
+        sys.exit(2)
+    return results
